@@ -93,6 +93,8 @@ Structural(br, ref) == br # <<>> /\ ref \in Used(br) /\ \A i \in DOMAIN br : br[
 SolveOpt(br, ref) == IF ~Structural(br, ref) THEN <<>> ELSE
     LET M == MNA(br, ref) n == Dim(br, ref) d == Det(M, n) IN
     IF CIsZero(d) THEN <<>> ELSE LET b == RHS(br, ref) IN [j \in 1..n |-> CDiv(Det(ReplaceCol(M, n, j, b), n), d)]
+\* the same through integer-scaled determinants (slower; smaller intermediate numbers)
+SolveOptI(br, ref) == IF ~Structural(br, ref) THEN <<>> ELSE CramerI(MNA(br, ref), Dim(br, ref), RHS(br, ref))
 
 \* quantities read off a solution vector s
 Phi(br, ref, s, n) == IF n = ref THEN C0 ELSE s[Rank(NZ(br, ref), n)]
